@@ -527,9 +527,11 @@ func Check(opt Options, writeBaseline bool) int {
 		code = 1
 	}
 	level := "proof"
-	if err := WriteEvidence(opt, rr, v, time.Since(t0).Seconds(), level, nil); err != nil {
-		fmt.Println("ENGINE-ERROR:", err)
-		return 2
+	if !opt.NoEvidence && opt.OnlyModule == "" && opt.OnlyFunc == "" {
+		if err := WriteEvidence(opt, rr, v, time.Since(t0).Seconds(), level, nil); err != nil {
+			fmt.Println("ENGINE-ERROR:", err)
+			return 2
+		}
 	}
 	if v.Obligations == 0 && code == 0 {
 		fmt.Println("ENGINE-ERROR: zero obligations were generated (vacuous check)")
